@@ -141,6 +141,14 @@ theorem quote_never_range (l : Lang) (s : Bytes) (o : Nat) : quote l s ≠ .erro
   intro h
   rcases quote_error_kind l s _ h with ⟨a, _⟩ | ⟨a, _⟩ | ⟨a, _⟩ <;> cases a
 
+/-- `ByteOffset` is the byte index at which the first offending rune (for the reported kind)
+    starts: the decode steps of `s` split as `pre ++ t :: post`, the offset is the length of `pre`,
+    `t` offends, and no rune of `pre` does. -/
+theorem quote_error_offset (l : Lang) (s : Bytes) (e : QErr) (h : quote l s = .error e) :
+    ∃ pre t post, runes s = pre ++ t :: post ∧ e.offs = (pre.flatMap Tok.raw).length ∧
+      Offending l e.kind t ∧ ∀ t' ∈ pre, ¬ Offending l e.kind t' :=
+  quote_error_at l s e h
+
 /-! ## Non-vacuity: every output shape and every error occurs -/
 
 -- bare: `a}` stays as it is
